@@ -129,10 +129,10 @@ TEMPLATES = [
     {"cls": "type", "t": "from t | derive {x = «that»}"},
     {"cls": "type", "t": "from t | join u (==id) | derive {y = «that»}"},
     # error sites of 19e2c2a (interval literal for a dialect without one: no span) and d86674e (JSON cell of from_text that
-    # cannot be represented: like every parse error of from_text it is reported at the `format` argument, not at the text)
+    # cannot be represented: reported at the text since the last commit of /repo; before, at the `format` argument)
     {"cls": "sql", "t": "from t | derive {x = «3years»}", "target": "sql.sqlite", "nospan": True},
-    {"cls": "type", "t": "from_text format:«json» '[{\"a\": 18446744073709551615}]'"},
-    {"cls": "type", "t": "from_text format:«json» '[{\"a\": [1]}]'"},
+    {"cls": "type", "t": "from_text format:json «'[{\"a\": 18446744073709551615}]'»"},
+    {"cls": "type", "t": "from_text format:json «'[{\"a\": [1]}]'»"},
     {"cls": "type", "t": "from t | group a («join u (==id)»)"},
     {"cls": "type", "t": "let f = func a -> «internal nope»\nfrom t | derive x = (f 1)"},
     {"cls": "type", "t": "from t | select {a} | append «null»"},
